@@ -25,6 +25,7 @@ def pcFresh : PC → Option Nat
   | .getMaxCas i _ _ _ => some i
   | .getTotal i _ => some i
   | .apPlace i _ => some i
+  | .freeYield i => some i
   | _ => none
 
 def ThreadMS (cfg : Cfg) (m : Mem) (th : Thread) : Prop :=
